@@ -4138,7 +4138,8 @@ def get_untracked_paths(
                 entry_path = os.path.join(dir_path, entry)
                 rel_entry = os.path.join(base_rel_path, entry)
 
-                if os.path.isfile(entry_path):
+                if os.path.islink(entry_path) or os.path.isfile(entry_path):
+                    # a symlink counts as a file whatever it points to
                     if ignore_manager.is_ignored(rel_entry) is not True:
                         return True
                 elif os.path.isdir(entry_path):
